@@ -182,7 +182,7 @@ def tlc(module, cfg=None, env=None, workers=4, timeout=900, heap='4g', tag=None,
     e = dict(os.environ)
     if env:
         e.update(env)
-    jopts = ['-Xss512m', '-Xmx' + heap, '-XX:+UseParallelGC', '-Dfile.encoding=UTF-8']
+    jopts = ['-Xss512m', '-Xmx' + heap, '-XX:+UseParallelGC', '-Dfile.encoding=UTF-8', '-Djava.io.tmpdir=' + meta]      # (TLC and SANY leave a temporary directory per run: keep it under the run's own directory, which is removed)
     if dfs:
         jopts.append('-Dtlc2.tool.queue.IStateQueue=StateDeque')
     cmd = ['java'] + jopts + ['-cp', TLA_CP, 'tlc2.TLC', '-workers', str(workers), '-metadir', meta,
